@@ -104,6 +104,7 @@ pub fn c19(a: &Args) {
                 if let Err(e) = judge_cnf(&cnf, &text, tt) { out.fail("cnf-export", &file.text(), &format!("Cnf::from(&ddnnf) -t {}", file.n), &format!("{e}; cnf = {}", fmt_cnf(&cnf)), "equi-countable CNF projecting onto the models, honest header"); }
                 out.circuit(&export_nodes(&d), &circuit_line(&d));
                 out.query("tocnf", "", &fmt_cnf(&cnf));
+                out.query("cnfok", "", "true");
                 if r2.chance(0.01) { out.sample(format!("{} n={} -> {}", file.origin, file.n, fmt_cnf(&cnf))); }
             }
         }
